@@ -83,7 +83,7 @@ def main(argv=None):
         return 2
     if args.explain:
         return explain(args.prop, args.explain)
-    rc, R = run_property(args.prop, args.tier, args.root)
+    rc, R = run_property(args.prop, args.tier, args.root, write=args.root is None and 'SA_REPO' not in os.environ)
     if rc == 0 and args.tier == 'thorough':
         from . import selftest
         rc = selftest.run(args.prop)
